@@ -216,6 +216,12 @@ def _query(g):
                 del where[2]  # no basic graph pattern at all: the filter alone looks at the data
                 outer_bgp_vars = []
         outer_bgp_vars = [v for v in outer_bgp_vars if v != "s"]
+    if len(where) == 1 and g.chance(0.08):
+        # a path between the very variables the neighbouring pattern binds: evaluated after it, both ends arrive bound (to whatever
+        # the data holds there, falsy literals included); evaluated before it, both are open
+        where[0] = {"t": "bgp", "triples": [[V("s"), ["u", P], V("o")]]}
+        where.append({"t": "group", "p": [{"t": "bgp", "triples": [[V("s"), ["path", g.choice(["P*", "P+", "P?", "(P|Q)+", "P/Q"])], V("o")]]}]})
+        outer_bgp_vars = []
     for _ in range(g.randint(0, 3)):
         k = g.choice(["optional", "optional-filter", "union", "minus", "filter", "bind", "values", "subselect", "group", "group", "bgp2", "empty-group"])
         if k == "optional":
